@@ -347,27 +347,33 @@ Qed.
 (*  Part A.6: the state machine over the lines of the grammar                             *)
 (* ====================================================================================== *)
 
-Lemma parse_skip_S0 : forall ls rest,
+Lemma parse_skip_S0 n keys : forall ls rest,
   Forall (fun l => prefix_eqb MOTIF l = false) ls ->
-  parse_lines S0 (ls ++ rest) = parse_lines S0 rest.
+  parse_lines n keys S0 (ls ++ rest) = parse_lines n keys S0 rest.
 Proof.
   induction 1 as [|l ls Hl Hls IH]; [reflexivity|].
   cbn [app parse_lines]. rewrite Hl. exact IH.
 Qed.
 
-Lemma parse_skip_S1 nm : forall ls rest,
+Lemma parse_skip_S1 n keys nm : forall ls rest,
   Forall (fun l => prefix_eqb LETTER l = false) ls ->
-  parse_lines (S1 nm) (ls ++ rest) = parse_lines (S1 nm) rest.
+  parse_lines n keys (S1 nm) (ls ++ rest) = parse_lines n keys (S1 nm) rest.
 Proof.
   induction 1 as [|l ls Hl Hls IH]; [reflexivity|].
   cbn [app parse_lines]. rewrite Hl. exact IH.
 Qed.
 
-Lemma parse_rows nm w : forall ls vals,
+(* what the code does when a motif is complete: store it, stop if the dict is full *)
+Definition commit (n : option Z) (keys : list (list Z)) (m : motif) (rest : list (list Z))
+  : res (list motif) :=
+  if full n (key_add keys (fst m)) then Ok [m]
+  else do ms <- parse_lines n (key_add keys (fst m)) S0 rest ;; Ok (m :: ms).
+
+Lemma parse_rows n keys nm w : forall ls vals,
   Forall2 (fun l v => parse_row l = Ok v) ls vals -> vals <> [] ->
   forall done rest, (length done + length vals = w)%nat ->
-  parse_lines (S2 nm w done) (ls ++ rest) =
-  (do ms <- parse_lines S0 rest ;; Ok ((nm, transpose4 (done ++ vals)) :: ms)).
+  parse_lines n keys (S2 nm w done) (ls ++ rest) =
+  commit n keys (nm, transpose4 (done ++ vals)) rest.
 Proof.
   induction 1 as [|l v ls vals Hv Hrest IH]; intros Hne done rest Hlen; [congruence|].
   cbn [app parse_lines]. rewrite Hv. cbn [bind].
@@ -412,10 +418,9 @@ Proof.
   unfold matrix_of, transpose4. apply map_ext. intros a. rewrite map_map. reflexivity.
 Qed.
 
-Lemma parse_block b : wf_block b = true ->
+Lemma parse_block n keys b : wf_block b = true ->
   forall bl rest, Forall2 line_of (map fst (block_lines b)) bl ->
-  parse_lines S0 (bl ++ rest) =
-  (do ms <- parse_lines S0 rest ;; Ok ((b_name b, matrix_of b) :: ms)).
+  parse_lines n keys S0 (bl ++ rest) = commit n keys (b_name b, matrix_of b) rest.
 Proof.
   intros Hw bl rest Hbl. unfold wf_block in Hw.
   apply andb_true_iff in Hw as [Hw Hsep]. apply andb_true_iff in Hw as [Hw Hrows].
@@ -440,20 +445,24 @@ Proof.
   destruct (width_of_line _ _ _ Hlet Hl1) as [Hp Hwd].
   cbn [app parse_lines]. rewrite Hp, Hwd. cbn [bind].
   (* separators are skipped in state S0 *)
-  assert (Hskip : forall r0, parse_lines S0 (lsep ++ r0) = parse_lines S0 r0).
-  { intros r0. apply parse_skip_S0.
+  assert (Hskip : forall k0 r0, parse_lines n k0 S0 (lsep ++ r0) = parse_lines n k0 S0 r0).
+  { intros k0 r0. apply parse_skip_S0.
     apply forallb_Forall in Hsep.
     refine (lines_Forall rl _ _ _ _ _ Hsep Hs). intros a l Ha Hl.
     eapply (raw_line_not MOTIF [MOTIF] a l not_in_MOTIF);
       [left; reflexivity | assumption | exact Hl]. }
+  assert (Hc : forall m, commit n keys m (lsep ++ rest) = commit n keys m rest).
+  { intros m. unfold commit. rewrite Hskip. reflexivity. }
   rewrite matrix_transpose.
   destruct (b_rows b) as [|t0 rows] eqn:Erows.
   - (* w = 0 *)
-    inversion Hr; subst. cbn [length Nat.eqb app map]. rewrite Hskip. reflexivity.
+    inversion Hr; subst. cbn [length Nat.eqb app map].
+    change (commit n keys (b_name b, transpose4 []) (lsep ++ rest) =
+            commit n keys (b_name b, transpose4 []) rest). apply Hc.
   - cbn [length Nat.eqb].
     rewrite <- app_assoc.
     rewrite parse_rows with (vals := map row_vals (t0 :: rows)).
-    + rewrite Hskip. reflexivity.
+    + apply Hc.
     + apply forallb_Forall in Hrows.
       refine (lines_Forall2 tl_ row_vals _ _ _ _ _ Hrows Hr). intros a l Ha Hl.
       apply parse_row_line; auto.
@@ -461,39 +470,16 @@ Proof.
     + cbn [length]. rewrite map_length. reflexivity.
 Qed.
 
-Lemma parse_blocks : forall bs seen,
-  forallb wf_block bs = true ->
-  Forall2 line_of (map fst (flat_map block_lines bs)) seen ->
-  parse_lines S0 seen = Ok (map (fun b => (b_name b, matrix_of b)) bs).
-Proof.
-  induction bs as [|b bs IH]; intros seen Hw Hs.
-  - inversion Hs; subst. reflexivity.
-  - cbn in Hw. apply andb_true_iff in Hw as [Hb Hbs].
-    cbn [flat_map] in Hs. rewrite map_app in Hs.
-    apply Forall2_app_inv_l in Hs as [bl [rest [H1 [H2 ->]]]].
-    rewrite (parse_block b Hb bl rest H1). rewrite (IH rest Hbs H2). reflexivity.
-Qed.
+(* the assignments executed on a file whose motifs are ms, k keys being in the dict already:
+   all of them, or up to the one that fills the dict *)
+Definition fulln (n : option Z) (k : nat) : bool :=
+  match n with Some v => Z.of_nat k =? v | None => false end.
 
-Lemma parse_file g seen : wf_file g = true ->
-  Forall2 line_of (map fst (file_lines g)) seen ->
-  parse_lines S0 seen = Ok (motifs_of g).
-Proof.
-  intros Hw Hs. unfold wf_file in Hw.
-  apply andb_true_iff in Hw as [Hw _]. apply andb_true_iff in Hw as [Hw _].
-  apply andb_true_iff in Hw as [Hh Hb].
-  unfold file_lines in Hs. rewrite map_app in Hs.
-  apply Forall2_app_inv_l in Hs as [lh [lb [H1 [H2 ->]]]].
-  rewrite parse_skip_S0.
-  - apply parse_blocks; auto.
-  - apply forallb_Forall in Hh.
-    refine (lines_Forall rl _ _ _ _ _ Hh H1). intros a l Ha Hl.
-    eapply (raw_line_not MOTIF [MOTIF] a l not_in_MOTIF);
-      [left; reflexivity | assumption | exact Hl].
-Qed.
-
-(* ====================================================================================== *)
-(*  Part A.7: the dict, the whole file                                                    *)
-(* ====================================================================================== *)
+Fixpoint cut (n : option Z) (k : nat) (ms : list motif) : list motif :=
+  match ms with
+  | [] => []
+  | m :: t => if fulln n (S k) then [m] else m :: cut n (S k) t
+  end.
 
 Lemma nodupb_app_l : forall l1 x l2, nodupb (l1 ++ x :: l2) = true ->
   forallb (fun y => negb (bytes_eqb y x)) l1 = true.
@@ -504,6 +490,79 @@ Proof.
   apply negb_true_iff in H1. rewrite existsb_app in H1. apply orb_false_iff in H1 as [_ H1].
   cbn in H1. apply orb_false_iff in H1 as [H1 _]. rewrite H1. reflexivity.
 Qed.
+
+Lemma key_add_fresh keys k : forallb (fun y => negb (bytes_eqb y k)) keys = true ->
+  key_add keys k = keys ++ [k].
+Proof.
+  intros H. unfold key_add.
+  replace (existsb (fun e => bytes_eqb e k) keys) with false; [reflexivity|].
+  symmetry. induction keys as [|y keys IH]; [reflexivity|].
+  cbn in *. apply andb_true_iff in H as [H1 H2]. apply negb_true_iff in H1.
+  rewrite H1. cbn. apply IH; auto.
+Qed.
+
+Lemma parse_blocks n : forall bs keys seen,
+  forallb wf_block bs = true ->
+  Forall2 line_of (map fst (flat_map block_lines bs)) seen ->
+  nodupb (keys ++ map b_name bs) = true ->
+  parse_lines n keys S0 seen = Ok (cut n (length keys) (map (fun b => (b_name b, matrix_of b)) bs)).
+Proof.
+  induction bs as [|b bs IH]; intros keys seen Hw Hs Hn.
+  - inversion Hs; subst. reflexivity.
+  - cbn in Hw. apply andb_true_iff in Hw as [Hb Hbs].
+    cbn [flat_map] in Hs. rewrite map_app in Hs.
+    apply Forall2_app_inv_l in Hs as [bl [rest [H1 [H2 ->]]]].
+    rewrite (parse_block n keys b Hb bl rest H1).
+    cbn [map] in Hn. unfold commit. cbn [fst].
+    rewrite key_add_fresh by (eapply nodupb_app_l; eauto).
+    cbn [map cut]. unfold full. rewrite app_length. cbn [length]. rewrite Nat.add_1_r.
+    fold (fulln n (S (length keys))).
+    destruct (fulln n (S (length keys))); [reflexivity|].
+    rewrite (IH (keys ++ [b_name b]) rest Hbs H2).
+    + rewrite app_length. cbn [length]. rewrite Nat.add_1_r. reflexivity.
+    + rewrite <- app_assoc. exact Hn.
+Qed.
+
+Lemma parse_file n g seen : wf_file g = true ->
+  Forall2 line_of (map fst (file_lines g)) seen ->
+  parse_lines n [] S0 seen = Ok (cut n 0 (motifs_of g)).
+Proof.
+  intros Hw Hs. unfold wf_file in Hw.
+  apply andb_true_iff in Hw as [Hw _]. apply andb_true_iff in Hw as [Hw Hnd].
+  apply andb_true_iff in Hw as [Hh Hb].
+  unfold file_lines in Hs. rewrite map_app in Hs.
+  apply Forall2_app_inv_l in Hs as [lh [lb [H1 [H2 ->]]]].
+  rewrite parse_skip_S0.
+  - apply (parse_blocks n (f_blocks g) [] lb); auto.
+  - apply forallb_Forall in Hh.
+    refine (lines_Forall rl _ _ _ _ _ Hh H1). intros a l Ha Hl.
+    eapply (raw_line_not MOTIF [MOTIF] a l not_in_MOTIF);
+      [left; reflexivity | assumption | exact Hl].
+Qed.
+
+Lemma cut_none : forall ms k, cut None k ms = ms.
+Proof. induction ms as [|m t IH]; intros k; cbn; [reflexivity | rewrite IH; reflexivity]. Qed.
+
+Lemma cut_some v : forall ms k, Z.of_nat k < v ->
+  cut (Some v) k ms = firstn (Z.to_nat v - k) ms.
+Proof.
+  induction ms as [|m t IH]; intros k Hk; cbn [cut fulln]; [rewrite firstn_nil; reflexivity|].
+  destruct (Z.of_nat (S k) =? v) eqn:E.
+  - replace (Z.to_nat v - k)%nat with 1%nat by lia. reflexivity.
+  - replace (Z.to_nat v - k)%nat with (S (Z.to_nat v - S k)) by lia.
+    cbn [firstn]. rewrite IH by lia. reflexivity.
+Qed.
+
+Lemma cut_prefix n : forall ms k, exists j, cut n k ms = firstn j ms.
+Proof.
+  induction ms as [|m t IH]; intros k; cbn [cut]; [exists 0%nat; reflexivity|].
+  destruct (fulln n (S k)); [exists 1%nat; reflexivity|].
+  destruct (IH (S k)) as [j E]. exists (S j). cbn [firstn]. rewrite E. reflexivity.
+Qed.
+
+(* ====================================================================================== *)
+(*  Part A.7: the dict, the whole file                                                    *)
+(* ====================================================================================== *)
 
 Lemma dict_set_fresh : forall d m,
   forallb (fun y => negb (bytes_eqb y (fst m))) (map fst d) = true -> dict_set d m = d ++ [m].
@@ -578,18 +637,45 @@ Proof.
     pose proof (block_nocrlf b Hb) as Hn. rewrite Forall_forall in Hn. auto.
 Qed.
 
-(* every file of the grammar: all motifs, in file order, with exactly their rows *)
-Lemma read_meme_complete g : wf_file g = true -> read_meme (render_file g) = Ok (motifs_of g).
+Lemma nodupb_firstn : forall (l : list (list Z)) j, nodupb l = true -> nodupb (firstn j l) = true.
+Proof.
+  induction l as [|x l IH]; intros j H; [rewrite firstn_nil; reflexivity|].
+  destruct j; [reflexivity|]. cbn [firstn nodupb] in *.
+  apply andb_true_iff in H as [H1 H2]. rewrite IH by auto. rewrite andb_true_r.
+  apply negb_true_iff. apply negb_true_iff in H1.
+  destruct (existsb (bytes_eqb x) (firstn j l)) eqn:E; [|reflexivity].
+  apply existsb_exists in E as [y [Hy1 Hy2]].
+  assert (Hin : In y l) by (rewrite <- (firstn_skipn j l); apply in_or_app; left; exact Hy1).
+  assert (existsb (bytes_eqb x) l = true) by (apply existsb_exists; eauto). congruence.
+Qed.
+
+(* every file of the grammar, any n_motifs: the assignments are those of [cut] *)
+Lemma read_meme_cut n g : wf_file g = true ->
+  read_meme n (render_file g) = Ok (cut n 0 (motifs_of g)).
 Proof.
   intros Hw. unfold read_meme, render_file.
   assert (Hlast : last_ok (f_final_nl g) (file_lines g) = true).
   { unfold wf_file in Hw. apply andb_true_iff in Hw as [_ Hw]. exact Hw. }
   destruct (split_render (f_final_nl g) (file_lines g) (file_nocrlf g Hw) Hlast) as [seen [E F]].
-  rewrite E. rewrite (parse_file g seen Hw F). cbn [bind].
+  rewrite E. rewrite (parse_file n g seen Hw F). cbn [bind].
   rewrite dict_of_nodup; [reflexivity|].
+  destruct (cut_prefix n (motifs_of g) 0) as [j ->].
+  rewrite <- firstn_map. apply nodupb_firstn.
   unfold motifs_of. rewrite map_map. cbn [fst].
   unfold wf_file in Hw. apply andb_true_iff in Hw as [Hw _]. apply andb_true_iff in Hw as [_ Hw].
   exact Hw.
+Qed.
+
+(* every file of the grammar: all motifs, in file order, with exactly their rows *)
+Lemma read_meme_complete g : wf_file g = true -> read_meme None (render_file g) = Ok (motifs_of g).
+Proof. intros Hw. rewrite read_meme_cut by auto. rewrite cut_none. reflexivity. Qed.
+
+(* n_motifs = k >= 1: the first k motifs *)
+Lemma read_meme_first k g : wf_file g = true -> 1 <= k ->
+  read_meme (Some k) (render_file g) = Ok (firstn (Z.to_nat k) (motifs_of g)).
+Proof.
+  intros Hw Hk. rewrite read_meme_cut by auto. rewrite cut_some by lia.
+  rewrite Nat.sub_0_r. reflexivity.
 Qed.
 
 (* ---- the pointwise spec holds for the motifs of the file *)
@@ -636,11 +722,15 @@ Proof.
   cbn [map combine forallb fst snd]. rewrite motif_ok_self. exact IH.
 Qed.
 
-Lemma meme_spec g : spec_ok (CMeme g) (model (CMeme g)) = true.
+Lemma meme_spec g n : spec_ok (CMeme g n) (model (CMeme g n)) = true.
 Proof.
   cbn [spec_ok model]. unfold spec_meme.
   destruct (wf_file g) eqn:Hw; [|reflexivity].
-  rewrite read_meme_complete by auto. cbn [bind]. apply all2_motifs.
+  destruct n as [k|].
+  - destruct (1 <=? k) eqn:Hk; [|reflexivity].
+    rewrite read_meme_first by (auto; lia). cbn [bind].
+    unfold motifs_of. rewrite firstn_map. apply all2_motifs.
+  - rewrite read_meme_complete by auto. cbn [bind]. apply all2_motifs.
 Qed.
 
 (* ====================================================================================== *)
@@ -914,18 +1004,24 @@ Proof. unfold slice_enum. rewrite map_length, seq_length. reflexivity. Qed.
 
 (* the expressions of one loop iteration, named *)
 Definition edge (x : xcall) (c : chrom) (l : locus) : bool :=
-  let ow := if (x_nsig x =? 0)%nat then 0 else x_wout x / 2 in
-  (mid_of l - Z.max ow (x_win x / 2) - x_jit x <? 0) ||
-  (Z.of_nat (length (c_seq c)) <=? mid_of l + Z.max ow (x_win x / 2) + x_jit x).
+  (mid_of l - Z.max (out_width x) (x_win x / 2) - x_jit x <? 0) ||
+  (Z.of_nat (length (c_seq c)) <=? mid_of l + Z.max (out_width x) (x_win x / 2) + x_jit x).
 
 Definition msig (x : xcall) (c : chrom) (l : locus) : list (list Z) :=
-  let ow := if (x_nsig x =? 0)%nat then 0 else x_wout x / 2 in
   if (x_nsig x =? 0)%nat then []
-  else map (fun t => pyslice t (mid_of l - ow - x_jit x) (mid_of l + ow + x_jit x + x_wout x mod 2))
+  else map (fun t => pyslice t (mid_of l - out_width x - x_jit x)
+                               (mid_of l + out_width x + x_jit x + x_wout x mod 2))
            (c_sig c).
 
+Definition minsig (x : xcall) (c : chrom) (l : locus) : list (list Z) :=
+  if (x_nin x =? 0)%nat then []
+  else map (fun t => pyslice t (mid_of l - x_win x / 2 - x_jit x)
+                               (mid_of l + x_win x / 2 + x_jit x + x_win x mod 2))
+           (c_insig c).
+
 Definition mseq (x : xcall) (c : chrom) (l : locus) : list Z :=
-  map base_code (pyslice (c_seq c) (mid_of l - x_win x / 2 - x_jit x)
+  map (base_code (x_alpha x))
+      (pyslice (c_seq c) (mid_of l - x_win x / 2 - x_jit x)
                          (mid_of l + x_win x / 2 + x_jit x + x_win x mod 2)).
 
 Definition mfail (x : xcall) (c : chrom) (l : locus) : bool :=
@@ -938,39 +1034,54 @@ Lemma loop_cons x l rest kept c : find_chrom (x_gen x) (l_chr l) = Some c ->
   if edge x c l then loop x rest kept
   else if cap_reached (x_nloci x) kept then Ok []
   else if mfail x c l then loop x rest kept
-  else do rows <- loop x rest (kept + 1) ;; Ok ((mseq x c l, msig x c l) :: rows).
+  else do rows <- loop x rest (kept + 1) ;; Ok ((mseq x c l, msig x c l, minsig x c l) :: rows).
 Proof. intros H. cbn [loop]. rewrite H. reflexivity. Qed.
 
 Lemma mid_eq l : mid_of l = midpoint l.
 Proof. unfold mid_of, midpoint. lia. Qed.
+
+Definition tracks_fact (n : nat) (c : chrom) (ts : list (list Z)) : Prop :=
+  length ts = n /\ forall t, In t ts -> length t = length (c_seq c).
 
 Record scope (x : xcall) : Prop := {
   sc_win : 1 <= x_win x;
   sc_jit : 0 <= x_jit x;
   sc_sig : x_nsig x = 0%nat \/
            (x_nsig x <> 0%nat /\ 1 <= x_wout x /\ (x_tgt x < x_nsig x)%nat /\
-            forall c, In c (x_gen x) ->
-              length (c_sig c) = x_nsig x /\
-              forall t, In t (c_sig c) -> length t = length (c_seq c));
+            forall c, In c (x_gen x) -> tracks_fact (x_nsig x) c (c_sig c));
+  sc_in : x_nin x = 0%nat \/
+          (x_nin x <> 0%nat /\
+           (forall c, In c (x_gen x) -> tracks_fact (x_nin x) c (c_insig c)) /\
+           (x_nsig x <> 0%nat \/ x_wout x / 2 <= x_win x / 2));
   sc_cap : forall n, x_nloci x = Some n -> 0 <= n;
   sc_chr : forall s l, In s (x_sets x) -> In l s -> on_chroms (x_chroms x) l = true ->
            find_chrom (x_gen x) (l_chr l) <> None }.
+
+Lemma tracks_ok_fact n c ts : tracks_ok n (length (c_seq c)) ts = true -> tracks_fact n c ts.
+Proof.
+  unfold tracks_ok, tracks_fact. intros H. apply andb_true_iff in H as [H1 H2].
+  split; [apply Nat.eqb_eq; auto|]. intros t Ht. rewrite forallb_forall in H2.
+  apply Nat.eqb_eq. auto.
+Qed.
 
 Lemma scope_of x : in_scope x = true -> scope x.
 Proof.
   unfold in_scope. intros H.
   apply andb_true_iff in H as [H Hchr]. apply andb_true_iff in H as [H Hcap].
-  apply andb_true_iff in H as [H Hsig]. apply andb_true_iff in H as [Hwin Hjit].
+  apply andb_true_iff in H as [H Hin]. apply andb_true_iff in H as [H Hsig].
+  apply andb_true_iff in H as [Hwin Hjit].
   constructor; try lia.
   - apply orb_true_iff in Hsig as [Hs|Hs]; [left; apply Nat.eqb_eq; auto|].
     destruct (Nat.eq_dec (x_nsig x) 0) as [E|E]; [left; auto|right].
     apply andb_true_iff in Hs as [Hs Htr]. apply andb_true_iff in Hs as [Hw Ht].
-    repeat split; auto; try lia.
-    + rewrite forallb_forall in Htr. specialize (Htr c H).
-      apply andb_true_iff in Htr as [Htr _]. apply Nat.eqb_eq; auto.
-    + intros t Ht'. rewrite forallb_forall in Htr. specialize (Htr c H).
-      apply andb_true_iff in Htr as [_ Htr]. rewrite forallb_forall in Htr.
-      apply Nat.eqb_eq. auto.
+    split; [auto|]. split; [lia|]. split; [lia|].
+    intros c Hc. rewrite forallb_forall in Htr. apply tracks_ok_fact. auto.
+  - apply orb_true_iff in Hin as [Hs|Hs]; [left; apply Nat.eqb_eq; auto|].
+    destruct (Nat.eq_dec (x_nin x) 0) as [E|E]; [left; auto|right].
+    apply andb_true_iff in Hs as [Htr Hw]. split; [auto|]. split.
+    + intros c Hc. rewrite forallb_forall in Htr. apply tracks_ok_fact. auto.
+    + apply orb_true_iff in Hw as [Hw|Hw]; [left|right; lia].
+      apply negb_true_iff in Hw. apply Nat.eqb_neq in Hw. auto.
   - intros n E. rewrite E in Hcap. lia.
   - intros s l Hs Hl Hon. rewrite forallb_forall in Hchr. specialize (Hchr s Hs).
     rewrite forallb_forall in Hchr. specialize (Hchr l Hl). rewrite Hon in Hchr. cbn in Hchr.
@@ -980,17 +1091,33 @@ Qed.
 Lemma find_chrom_in g id c : find_chrom g id = Some c -> In c g.
 Proof. unfold find_chrom. intros H. apply find_some in H. tauto. Qed.
 
+(* what out_width is, given the scope: the out half-width when signals are given, otherwise
+   something that does not exceed the in half-width *)
+Lemma out_width_cases x : scope x ->
+  (has_sig x = true /\ out_width x = x_wout x / 2 /\ 1 <= x_wout x) \/
+  (has_sig x = false /\ out_width x <= x_win x / 2).
+Proof.
+  intros [Hw Hj Hs Hi _ _]. unfold has_sig, out_width.
+  destruct Hs as [E|[E [Hwo _]]].
+  - right. rewrite E. cbn [Nat.eqb negb andb]. split; [reflexivity|].
+    destruct Hi as [Ei|[Ei [_ [C|C]]]].
+    + rewrite Ei. cbn. lia.
+    + congruence.
+    + destruct (x_nin x =? 0)%nat; lia.
+  - left. apply Nat.eqb_neq in E. rewrite E. cbn [negb andb]. auto.
+Qed.
+
 (* the edge rule of the code against the windows of the property *)
 Lemma edge_rule x c l : scope x ->
   let len := Z.of_nat (length (c_seq c)) in
   (crosses x l len = true -> edge x c l = true) /\
   (edge x c l = true -> crosses x l len || touches x l len = true).
 Proof.
-  intros SC len. destruct SC as [Hw Hj Hs _ _].
-  unfold edge, crosses, touches, lo_in, n_in, lo_out, n_out, has_sig. rewrite mid_eq. fold len.
-  destruct Hs as [E|[E [Hwo _]]].
-  - rewrite E. cbn [Nat.eqb negb andb]. rewrite !orb_false_r. unfold midpoint. split; lia.
-  - apply Nat.eqb_neq in E. rewrite E. cbn [negb andb]. unfold midpoint. split; lia.
+  intros SC len. pose proof (out_width_cases x SC) as OW. destruct SC as [Hw Hj _ _ _ _].
+  unfold edge, crosses, touches, lo_in, n_in, lo_out, n_out. rewrite mid_eq. fold len.
+  destruct OW as [[Hs [Eo Hwo]]|[Hs Ho]]; rewrite Hs.
+  - rewrite Eo. cbn [andb]. unfold midpoint. split; lia.
+  - cbn [andb]. rewrite !orb_false_r. unfold midpoint. split; lia.
 Qed.
 
 (* window_spec: once the filter has passed, both windows lie inside the chromosome and the
@@ -998,34 +1125,42 @@ Qed.
 Lemma window_spec x c l : scope x -> In c (x_gen x) -> edge x c l = false ->
   let len := Z.of_nat (length (c_seq c)) in
   (0 <= lo_in x l /\ lo_in x l + n_in x <= len /\
-   mseq x c l = map base_code (slice_enum 0 (c_seq c) (lo_in x l) (n_in x)) /\
+   mseq x c l = map (base_code (x_alpha x)) (slice_enum 0 (c_seq c) (lo_in x l) (n_in x)) /\
    length (mseq x c l) = Z.to_nat (x_win x + 2 * x_jit x)) /\
   (has_sig x = true ->
    0 <= lo_out x l /\ lo_out x l + n_out x <= len /\
    msig x c l = map (fun t => slice_enum 0 t (lo_out x l) (n_out x)) (c_sig c) /\
-   Forall (fun w => length w = Z.to_nat (x_wout x + 2 * x_jit x)) (msig x c l)).
+   Forall (fun w => length w = Z.to_nat (x_wout x + 2 * x_jit x)) (msig x c l)) /\
+  (has_insig x = true ->
+   minsig x c l = map (fun t => slice_enum 0 t (lo_in x l) (n_in x)) (c_insig c) /\
+   Forall (fun w => length w = Z.to_nat (x_win x + 2 * x_jit x)) (minsig x c l)).
 Proof.
-  intros SC Hc He len. destruct SC as [Hw Hj Hs _ _].
+  intros SC Hc He len. pose proof (out_width_cases x SC) as OW.
+  destruct SC as [Hw Hj Hs Hi _ _].
   unfold edge in He. rewrite mid_eq in He. fold len in He.
   assert (Bin : 0 <= lo_in x l /\ lo_in x l + n_in x <= len /\ 0 <= n_in x).
-  { unfold lo_in, n_in. unfold midpoint in *.
-    destruct (x_nsig x =? 0)%nat; lia. }
-  assert (Ein : mseq x c l = map base_code (slice_enum 0 (c_seq c) (lo_in x l) (n_in x))).
-  { unfold mseq. rewrite mid_eq. f_equal.
+  { unfold lo_in, n_in. unfold midpoint in *. destruct OW as [[_ [Eo _]]|[_ Ho]]; lia. }
+  assert (Sl : forall t, length t = length (c_seq c) ->
+     pyslice t (mid_of l - x_win x / 2 - x_jit x) (mid_of l + x_win x / 2 + x_jit x + x_win x mod 2)
+     = slice_enum 0 t (lo_in x l) (n_in x)).
+  { intros t Ht. rewrite mid_eq.
     replace (midpoint l - x_win x / 2 - x_jit x) with (lo_in x l) by (unfold lo_in; lia).
     replace (midpoint l + x_win x / 2 + x_jit x + x_win x mod 2) with (lo_in x l + n_in x)
       by (unfold lo_in, n_in; lia).
-    apply pyslice_enum; fold len; lia. }
-  split.
+    apply pyslice_enum; rewrite ?Ht; fold len; lia. }
+  assert (Ein : mseq x c l = map (base_code (x_alpha x)) (slice_enum 0 (c_seq c) (lo_in x l) (n_in x))).
+  { unfold mseq. rewrite Sl by reflexivity. reflexivity. }
+  split; [|split].
   - repeat split; try lia; auto.
     rewrite Ein, map_length, slice_enum_length. reflexivity.
-  - intros Hhs. unfold has_sig in Hhs. apply negb_true_iff in Hhs.
-    destruct Hs as [E|[E [Hwo [_ Htr]]]]; [rewrite E in Hhs; discriminate|].
-    rewrite Hhs in He.
+  - intros Hhs. destruct OW as [[_ [Eo Hwo]]|[Hs' _]]; [|congruence].
+    unfold has_sig in Hhs. apply negb_true_iff in Hhs.
+    destruct Hs as [E|[E [_ [_ Htr]]]]; [rewrite E in Hhs; discriminate|].
+    rewrite Eo in He.
     assert (Bout : 0 <= lo_out x l /\ lo_out x l + n_out x <= len /\ 0 <= n_out x).
     { unfold lo_out, n_out. unfold midpoint in *. lia. }
     assert (Eout : msig x c l = map (fun t => slice_enum 0 t (lo_out x l) (n_out x)) (c_sig c)).
-    { unfold msig. rewrite Hhs. rewrite mid_eq. apply map_ext_in. intros t Ht.
+    { unfold msig. rewrite Hhs. rewrite Eo. rewrite mid_eq. apply map_ext_in. intros t Ht.
       replace (midpoint l - x_wout x / 2 - x_jit x) with (lo_out x l) by (unfold lo_out; lia).
       replace (midpoint l + x_wout x / 2 + x_jit x + x_wout x mod 2) with (lo_out x l + n_out x)
         by (unfold lo_out, n_out; lia).
@@ -1034,42 +1169,53 @@ Proof.
     repeat split; try lia; auto.
     rewrite Eout. apply Forall_forall. intros w Hw'. apply in_map_iff in Hw' as [t [<- _]].
     apply slice_enum_length.
+  - intros Hhi. unfold has_insig in Hhi. apply negb_true_iff in Hhi.
+    destruct Hi as [E|[E [Htr _]]]; [rewrite E in Hhi; discriminate|].
+    assert (Ei : minsig x c l = map (fun t => slice_enum 0 t (lo_in x l) (n_in x)) (c_insig c)).
+    { unfold minsig. rewrite Hhi. apply map_ext_in. intros t Ht. apply Sl.
+      destruct (Htr c Hc) as [_ Hlen]. auto. }
+    split; [exact Ei|].
+    rewrite Ei. apply Forall_forall. intros w Hw'. apply in_map_iff in Hw' as [t [<- _]].
+    apply slice_enum_length.
 Qed.
 
 Lemma model_row x c l : scope x -> In c (x_gen x) -> edge x c l = false ->
-  (mseq x c l, msig x c l) = expected_row x c l.
+  (mseq x c l, msig x c l, minsig x c l) = expected_row x c l.
 Proof.
-  intros SC Hc He. destruct (window_spec x c l SC Hc He) as [[_ [_ [E1 _]]] H2].
-  unfold expected_row. rewrite E1. f_equal.
-  destruct (has_sig x) eqn:Hs.
-  - destruct (H2 eq_refl) as [_ [_ [E2 _]]]. exact E2.
-  - unfold msig. unfold has_sig in Hs. apply negb_false_iff in Hs. rewrite Hs. reflexivity.
+  intros SC Hc He. destruct (window_spec x c l SC Hc He) as [[_ [_ [E1 _]]] [H2 H3]].
+  unfold expected_row. rewrite E1. f_equal; [f_equal|].
+  - destruct (has_sig x) eqn:Hs.
+    + destruct (H2 eq_refl) as [_ [_ [E2 _]]]. exact E2.
+    + unfold msig. unfold has_sig in Hs. apply negb_false_iff in Hs. rewrite Hs. reflexivity.
+  - destruct (has_insig x) eqn:Hs.
+    + destruct (H3 eq_refl) as [E3 _]. exact E3.
+    + unfold minsig. unfold has_insig in Hs. apply negb_false_iff in Hs. rewrite Hs. reflexivity.
 Qed.
 
 (* ====================================================================================== *)
 (*  Part B.3: the loop against the property's omission rule                               *)
 (* ====================================================================================== *)
 
-Lemma classify_edge x c l : scope x -> on_chroms (x_chroms x) l = true ->
+Lemma classify_edge x c l : scope x ->
   find_chrom (x_gen x) (l_chr l) = Some c -> edge x c l = true -> classify x l <> CKeep.
 Proof.
-  intros SC Hon Hf He. unfold classify. rewrite Hf.
+  intros SC Hf He. unfold classify. rewrite Hf.
   destruct (edge_rule x c l SC) as [_ H]. specialize (H He).
   destruct (crosses x l (Z.of_nat (length (c_seq c)))); [discriminate|].
   cbn [orb] in H. rewrite H.
   destruct (has_sig x && _); discriminate.
 Qed.
 
-Lemma classify_noedge x c l : scope x -> on_chroms (x_chroms x) l = true ->
+Lemma classify_noedge x c l : scope x ->
   find_chrom (x_gen x) (l_chr l) = Some c -> edge x c l = false ->
-  classify x l = if mfail x c l then CFree
+  classify x l = if mfail x c l then COmit
                  else if touches x l (Z.of_nat (length (c_seq c))) then CFree else CKeep.
 Proof.
-  intros SC Hon Hf He. unfold classify. rewrite Hf.
+  intros SC Hf He. unfold classify. rewrite Hf.
   destruct (edge_rule x c l SC) as [H _].
   destruct (crosses x l (Z.of_nat (length (c_seq c)))); [specialize (H eq_refl); congruence|].
   pose proof (model_row x c l SC (find_chrom_in _ _ _ Hf) He) as E.
-  unfold mfail. rewrite <- E. cbn [snd]. unfold has_sig. reflexivity.
+  unfold mfail. rewrite <- E. cbn [fst snd]. unfold has_sig. reflexivity.
 Qed.
 
 Definition capof (x : xcall) (kept : Z) : option nat :=
@@ -1104,30 +1250,30 @@ Qed.
 Lemma zl_eqb_refl l : zl_eqb l l = true.
 Proof. apply list_eqb_spec; [intros; apply Z.eqb_eq | reflexivity]. Qed.
 
-Lemma row_eqb_refl r : row_eqb r r = true.
+Lemma zll_eqb_refl (l : list (list Z)) : list_eqb zl_eqb l l = true.
 Proof.
-  unfold row_eqb. rewrite zl_eqb_refl. cbn [andb].
   apply list_eqb_spec; [|reflexivity]. intros a b. apply list_eqb_spec. intros; apply Z.eqb_eq.
 Qed.
 
+Lemma row_eqb_refl r : row_eqb r r = true.
+Proof. unfold row_eqb. rewrite zl_eqb_refl, !zll_eqb_refl. reflexivity. Qed.
+
 Lemma loop_matchr x : scope x -> forall ls kept,
-  (forall l, In l ls -> on_chroms (x_chroms x) l = true /\
-                        find_chrom (x_gen x) (l_chr l) <> None) ->
+  (forall l, In l ls -> find_chrom (x_gen x) (l_chr l) <> None) ->
   (forall n, x_nloci x = Some n -> 0 <= kept <= n) ->
   exists rows, loop x ls kept = Ok rows /\ matchr x ls (capof x kept) rows = true.
 Proof.
   intros SC. induction ls as [|l ls IH]; intros kept Hin Hk.
   - exists []. split; [reflexivity | apply matchr_nil].
-  - destruct (Hin l (or_introl eq_refl)) as [Hon Hf].
+  - pose proof (Hin l (or_introl eq_refl)) as Hf.
     destruct (find_chrom (x_gen x) (l_chr l)) as [c|] eqn:Ec; [clear Hf | congruence].
-    assert (Hin' : forall l0, In l0 ls -> on_chroms (x_chroms x) l0 = true /\
-                                          find_chrom (x_gen x) (l_chr l0) <> None)
+    assert (Hin' : forall l0, In l0 ls -> find_chrom (x_gen x) (l_chr l0) <> None)
       by (intros; apply Hin; right; auto).
     rewrite (loop_cons x l ls kept c Ec).
     destruct (edge x c l) eqn:Ee.
     + destruct (IH kept Hin' Hk) as [rows [E M]]. exists rows. split; [exact E|].
       apply matchr_skip; auto. eapply classify_edge; eauto.
-    + pose proof (classify_noedge x c l SC Hon Ec Ee) as Ecl.
+    + pose proof (classify_noedge x c l SC Ec Ee) as Ecl.
       destruct (cap_reached (x_nloci x) kept) eqn:Ecap.
       * exists []. split; [reflexivity|].
         unfold capof, cap_reached in *. destruct (x_nloci x) as [n|]; [|discriminate].
@@ -1138,7 +1284,7 @@ Proof.
         -- assert (Hk' : forall n, x_nloci x = Some n -> 0 <= kept + 1 <= n).
            { intros n En. specialize (Hk n En). unfold cap_reached in Ecap. rewrite En in Ecap. lia. }
            destruct (IH (kept + 1) Hin' Hk') as [rows [E M]].
-           exists ((mseq x c l, msig x c l) :: rows). split; [rewrite E; reflexivity|].
+           exists ((mseq x c l, msig x c l, minsig x c l) :: rows). split; [rewrite E; reflexivity|].
            apply matchr_keep.
            ++ unfold capof, cap_reached in *. destruct (x_nloci x) as [n|]; [|discriminate].
               specialize (Hk n eq_refl). intros E0. injection E0 as E0. lia.
@@ -1163,7 +1309,7 @@ Proof.
   - intros l Hl. apply in_rr in Hl as [s [Hs1 Hs2]].
     apply in_map_iff in Hs1 as [s0 [<- Hs0]].
     unfold filter_chroms in Hs2. apply filter_In in Hs2 as [Hl1 Hl2].
-    split; [exact Hl2|]. eapply (sc_chr x SC); eauto.
+    eapply (sc_chr x SC); eauto.
   - intros n En. pose proof (sc_cap x SC n En). lia.
   - rewrite E. cbn [bind].
     assert (Ecap : capof x 0 = option_map Z.to_nat (x_nloci x)).
@@ -1192,8 +1338,8 @@ Proof.
 Qed.
 
 Definition nocap (x : xcall) : xcall :=
-  mkX (x_gen x) (x_sets x) (x_chroms x) (x_win x) (x_wout x) (x_jit x) (x_nsig x)
-      (x_min x) (x_max x) (x_tgt x) None.
+  mkX (x_gen x) (x_sets x) (x_chroms x) (x_win x) (x_wout x) (x_jit x) (x_nsig x) (x_nin x)
+      (x_min x) (x_max x) (x_tgt x) None (x_alpha x).
 
 (* n_loci = n returns the first n rows of what the call without cap returns *)
 Lemma loop_cap x n : x_nloci x = Some n -> forall ls kept rows, 0 <= kept <= n ->
@@ -1210,6 +1356,7 @@ Proof.
     change (mfail (nocap x) c l) with (mfail x c l) in H.
     change (mseq (nocap x) c l) with (mseq x c l) in H.
     change (msig (nocap x) c l) with (msig x c l) in H.
+    change (minsig (nocap x) c l) with (minsig x c l) in H.
     change (cap_reached (x_nloci (nocap x)) kept) with false in H.
     destruct (edge x c l); [apply IH; auto|].
     rewrite En. cbn [cap_reached].
@@ -1247,33 +1394,38 @@ Definition g_adjacent : mfile :=
 
 (* the pre-fix parser on these two files: m2 is missing from the first, m2 from the second *)
 Lemma v0_eof : wf_file g_eof = true /\
-  option_map (map fst) (match read_meme_v0 (render_file g_eof) with Ok m => Some m | Err => None end)
+  option_map (map fst) (match read_meme_v0 None (render_file g_eof) with Ok m => Some m | Err => None end)
     = Some [[109; 49]] /\
-  spec_ok (CMeme g_eof) (model_v0 (CMeme g_eof)) = false.
+  spec_ok (CMeme g_eof None) (model_v0 (CMeme g_eof None)) = false.
 Proof. repeat split; vm_compute; reflexivity. Qed.
 
 Lemma v0_adjacent : wf_file g_adjacent = true /\
-  option_map (map fst) (match read_meme_v0 (render_file g_adjacent) with Ok m => Some m | Err => None end)
+  option_map (map fst) (match read_meme_v0 None (render_file g_adjacent) with Ok m => Some m | Err => None end)
     = Some [[109; 49]; [109; 51]] /\
-  spec_ok (CMeme g_adjacent) (model_v0 (CMeme g_adjacent)) = false.
+  spec_ok (CMeme g_adjacent None) (model_v0 (CMeme g_adjacent None)) = false.
 Proof. repeat split; vm_compute; reflexivity. Qed.
 
 Lemma v0_refuted_eof : exists c, spec_ok c (model_v0 c) = false.
-Proof. exists (CMeme g_eof). apply v0_eof. Qed.
+Proof. exists (CMeme g_eof None). apply v0_eof. Qed.
 
 Lemma v0_refuted_adjacent : exists c, spec_ok c (model_v0 c) = false.
-Proof. exists (CMeme g_adjacent). apply v0_adjacent. Qed.
+Proof. exists (CMeme g_adjacent None). apply v0_adjacent. Qed.
 
 (* a call of extract_loci inside the scope: one chromosome ACGTNacgtn with one signal track,
    loci at both ends and in the middle, in_window 3, out_window 2, jitter 1: round-robin order
    is mid 1, 7, 2, 8, 5; mid 1 crosses the left end, mid 8 touches the right end (dropped);
    mid 2 touches the left end (kept) *)
 Definition x_example : xcall :=
-  mkX [mkChrom 1 [65; 67; 71; 84; 78; 97; 99; 103; 116; 110] [[1; 2; 3; 4; 5; 6; 7; 8; 9; 10]]]
+  mkX [mkChrom 1 [65; 67; 71; 84; 78; 97; 99; 103; 116; 110] [[1; 2; 3; 4; 5; 6; 7; 8; 9; 10]]
+               [[0; 1; 0; 1; 0; 1; 0; 1; 0; 1]]]
       [[mkLocus 1 1 1; mkLocus 1 2 2; mkLocus 1 5 6]; [mkLocus 1 7 7; mkLocus 1 8 8]]
-      None 3 2 1 1 None None 0 None.
+      None 3 2 1 1 1 None None 0 None [65; 67; 71; 84].
 
 Lemma scope_example : in_scope x_example = true /\ wf_file g_eof = true /\
   extract_loci x_example =
-    Ok [([0; 1; 2; 3; 4], [[6; 7; 8; 9]]); ([0; 1; 2; 3; 4], [[1; 2; 3; 4]]); ([3; 4; 0; 1; 2], [[4; 5; 6; 7]])].
+    Ok [([0; 1; 2; 3; -1], [[6; 7; 8; 9]], [[1; 0; 1; 0; 1]]);
+        ([0; 1; 2; 3; -1], [[1; 2; 3; 4]], [[0; 1; 0; 1; 0]]);
+        ([3; -1; 0; 1; 2], [[4; 5; 6; 7]], [[1; 0; 1; 0; 1]])] /\
+  option_map (map fst) (match read_meme (Some 1) (render_file g_adjacent) with Ok m => Some m | Err => None end)
+    = Some [[109; 49]].
 Proof. repeat split; vm_compute; reflexivity. Qed.
